@@ -127,7 +127,8 @@ class InlineCode(SpanToken):
         content = match.group(self.parse_group)
         self.delimiter = match.group(1)
         content = content.replace('\n', ' ')
-        self.padding = " " if not content.isspace() and content.startswith(" ") and content.endswith(" ") else ""
+        # (a space is stripped from both ends unless the content consists of spaces only - of U+0020, not of any white space)
+        self.padding = " " if content.strip(" ") and content.startswith(" ") and content.endswith(" ") else ""
         if self.padding:
             content = content[1:-1]
         self.children = (RawText(content),)
